@@ -309,7 +309,7 @@ func runGwHistory(rng *rand.Rand, w *Writer, suite string, malformed bool) {
 					en := rxEntry{tmst: rng.Uint32(), ch: uint8(rng.Intn(8)), datr: datrs[rng.Intn(len(datrs))], rssi: -50, lsnr: "7.25", data: randBytes(rng, 1+rng.Intn(20))}
 					pkt := append(header(2, tok, 0, e), []byte(`{"rxpk":[`+entryJSON(en)+`]}`)...)
 					w.Begin(suite + " datagram " + hx(pkt))
-			gw.socks[si].WriteToUDP(pkt, gw.addrFor(si))
+					gw.socks[si].WriteToUDP(pkt, gw.addrFor(si))
 					step(fmt.Sprintf("G,%d,%s,valid,%d/%d/%d/%s/%d/%s/%s", si, hx(pkt), en.tmst, en.ch, en.rfch, en.datr, en.rssi, en.lsnr, hx(en.data)), false)
 					w.Count("gw.push_data.probe")
 				}
